@@ -143,6 +143,11 @@ func (os *ObjectStream) parseHeader() error {
 	headerData := os.decoded[:os.first]
 	parser := NewParser(bytes.NewReader(headerData))
 
+	// Every pair of the header takes at least four bytes ("1 0 "): /N cannot
+	// promise more pairs than the header has room for
+	if os.n > len(headerData)/4+1 {
+		return fmt.Errorf("object stream /N (%d) exceeds what its header of %d bytes can hold", os.n, len(headerData))
+	}
 	os.offsets = make([]objectStreamOffset, 0, os.n)
 
 	for i := 0; i < os.n; i++ {
@@ -205,10 +210,11 @@ func (os *ObjectStream) GetObjectByIndex(index int) (Object, int, error) {
 		endOffset = len(os.decoded)
 	}
 
-	if offset >= len(os.decoded) {
-		return nil, 0, fmt.Errorf("object offset %d exceeds decoded data length %d", offset, len(os.decoded))
+	if offset < os.first || offset >= len(os.decoded) {
+		return nil, 0, fmt.Errorf("object offset %d outside the decoded data of length %d", offset, len(os.decoded))
 	}
-	if endOffset > len(os.decoded) {
+	// Offsets that do not increase: the object extends to the end of the data
+	if endOffset > len(os.decoded) || endOffset < offset {
 		endOffset = len(os.decoded)
 	}
 
